@@ -45,16 +45,17 @@ Ltac inv_step H :=
          end;
   try (injection H as H); try subst.
 
+Ltac upd_split g i x j :=
+  let E := fresh "E" in
+  destruct (Nat.eq_dec j i) as [E|E];
+  [ first [ subst j | subst i | rewrite E in * ]; rewrite ?upd_same in *
+  | rewrite ?(upd_other g i x j E) in * ].
 Ltac upd_cases :=
   repeat match goal with
-         | |- context [upd _ ?i _ ?j] =>
-           let E := fresh "E" in
-           destruct (Nat.eq_dec j i) as [E|E];
-           [ try subst; rewrite ?upd_same in * | rewrite (upd_other _ _ _ _ E) in * ]
-         | H : context [upd _ ?i _ ?j] |- _ =>
-           let E := fresh "E" in
-           destruct (Nat.eq_dec j i) as [E|E];
-           [ try subst; rewrite ?upd_same in * | rewrite (upd_other _ _ _ _ E) in * ]
+         | |- context [upd ?g ?i ?x ?j] =>
+           lazymatch j with context [upd _ _ _ _] => fail | _ => upd_split g i x j end
+         | H : context [upd ?g ?i ?x ?j] |- _ =>
+           lazymatch j with context [upd _ _ _ _] => fail | _ => upd_split g i x j end
          end.
 
 Section Proofs.
@@ -184,6 +185,173 @@ Proof.
   { unfold inflight, holders. apply count_upto_le. intros i Hi. apply Hmust.
     destruct (t_pc (tasks s i)); try discriminate; reflexivity. }
   split; auto. lia.
+Qed.
+
+
+(* ------------------------------------------------------------------ structure of tasks / frames *)
+
+Hypothesis succ_dec : forall n m, In m (succ n) -> m < n.
+
+Definition crank (k : kind) (n : nat) : nat := match k with KFn => 2 * n | KOuter => 2 * n + 1 end.
+Definition trank (t : task) : nat := crank (t_kind t) (t_node t).
+
+Definition I_wff s := forall f, nframes s <= f -> frames s f = dframe.
+Definition I_nfpos s := 1 <= nframes s.
+Definition I_tframe s := forall t, t_frame (tasks s t) < nframes s.
+Definition I_unfin s := forall t, is_fin (t_pc (tasks s t)) = false -> is_ret (f_pc (frames s (t_frame (tasks s t)))) = false.
+Definition I_ingo s := forall t f, t_pc (tasks s t) = TInGo f ->
+  f_parent (frames s f) = Some t /\ is_ret (f_pc (frames s f)) = false.
+Definition I_parent s := forall f p, f_parent (frames s f) = Some p ->
+  (t_frame (tasks s p) < f /\ p < ntasks s) /\ (is_ret (f_pc (frames s f)) = false -> t_pc (tasks s p) = TInGo f).
+Definition I_top s := forall f, f_parent (frames s f) = None -> f = 0 \/ nframes s <= f.
+Definition I_ancself s := forall f, f < nframes s -> In f (f_anc (frames s f)).
+Definition I_anc s := forall f p, f_parent (frames s f) = Some p ->
+  (forall x, In x (f_anc (frames s (t_frame (tasks s p)))) -> In x (f_anc (frames s f))) /\
+  (f_cancelled (frames s (t_frame (tasks s p))) = true -> f_cancelled (frames s f) = true).
+Definition I_rank s := forall f p, f_parent (frames s f) = Some p ->
+  (forall i, In i (f_items (frames s f)) -> crank (f_kind (frames s f)) i < trank (tasks s p)) /\
+  (forall c, t_frame (tasks s c) = f -> trank (tasks s c) < trank (tasks s p)).
+Definition I_wait s := forall t l, t_pc (tasks s t) = TWait l ->
+  t_kind (tasks s t) = KFn /\ l <> [] /\ forall m, In m l -> In m (succ (t_node (tasks s t))).
+
+Record Inv2 (s : state) : Prop := {
+  i2_wff : I_wff s; i2_nfpos : I_nfpos s; i2_tframe : I_tframe s; i2_unfin : I_unfin s; i2_ingo : I_ingo s;
+  i2_parent : I_parent s; i2_top : I_top s; i2_ancself : I_ancself s; i2_anc : I_anc s; i2_rank : I_rank s;
+  i2_wait : I_wait s }.
+
+Lemma cf_parent x fs j : f_parent (cancel_frames x fs j) = f_parent (fs j).
+Proof. unfold cancel_frames. destruct (existsb _ _); reflexivity. Qed.
+Lemma cf_anc x fs j : f_anc (cancel_frames x fs j) = f_anc (fs j).
+Proof. unfold cancel_frames. destruct (existsb _ _); reflexivity. Qed.
+Lemma cf_kind x fs j : f_kind (cancel_frames x fs j) = f_kind (fs j).
+Proof. unfold cancel_frames. destruct (existsb _ _); reflexivity. Qed.
+Lemma cf_all x fs j : f_all (cancel_frames x fs j) = f_all (fs j).
+Proof. unfold cancel_frames. destruct (existsb _ _); reflexivity. Qed.
+Lemma cf_items x fs j : f_items (cancel_frames x fs j) = f_items (fs j).
+Proof. unfold cancel_frames. destruct (existsb _ _); reflexivity. Qed.
+Lemma cf_pc x fs j : f_pc (cancel_frames x fs j) = f_pc (fs j).
+Proof. unfold cancel_frames. destruct (existsb _ _); reflexivity. Qed.
+Lemma cf_cancelled x fs j :
+  f_cancelled (cancel_frames x fs j) = existsb (Nat.eqb x) (f_anc (fs j)) || f_cancelled (fs j).
+Proof. unfold cancel_frames. destruct (existsb _ _); reflexivity. Qed.
+Lemma cf_dframe x fs j : fs j = dframe -> cancel_frames x fs j = dframe.
+Proof. unfold cancel_frames. intros ->. reflexivity. Qed.
+Lemma existsb_eqb_in x l : existsb (Nat.eqb x) l = true <-> In x l.
+Proof.
+  rewrite existsb_exists. split.
+  - intros [y [Hy He]]. apply Nat.eqb_eq in He. subst. auto.
+  - intros H. exists x. split; auto. apply Nat.eqb_refl.
+Qed.
+
+
+Lemma flive s f : I_wff s -> is_ret (f_pc (frames s f)) = false -> f < nframes s.
+Proof.
+  intros Hw Hp. destruct (Nat.lt_ge_cases f (nframes s)); auto. rewrite Hw in Hp by auto. discriminate.
+Qed.
+
+Ltac fsimp := repeat (rewrite ?cf_parent, ?cf_anc, ?cf_kind, ?cf_all, ?cf_items, ?cf_pc in * ).
+Ltac step_cases l Hs :=
+  destruct l; inv_step Hs; unfold finish, with_tasks in *;
+  cbn [tasks ntasks free frames nframes tracker failed top_cancelled] in *.
+Ltac flive_all :=
+  repeat match goal with
+         | Hw : I_wff ?s, Hp : f_pc (frames ?s ?f) = _ |- _ =>
+           lazymatch goal with
+           | _ : f < nframes s |- _ => fail
+           | _ => idtac
+           end;
+           assert (f < nframes s) by (apply (flive s f Hw); rewrite Hp; reflexivity)
+         end.
+
+Lemma inv2_init : Inv2 (init K ext roots).
+Proof.
+  constructor; red; cbn; intros; unfold upd in *;
+    repeat match goal with
+           | H : context [Nat.eqb ?a ?b] |- _ => destruct (Nat.eqb_spec a b); subst; cbn in *
+           | |- context [Nat.eqb ?a ?b] => destruct (Nat.eqb_spec a b); subst; cbn in *
+           end; auto; try lia; try discriminate; try congruence.
+Qed.
+
+Lemma inv2_wff s l s' : Inv1 s -> Inv2 s -> step succ s l = Some s' -> I_wff s' /\ I_nfpos s' /\ I_tframe s'.
+Proof.
+  intros [Hwf Hperm Hmust Hmay] [Hwff Hnf Htf Hunf Hingo Hpar Htop Hself Hanc Hrank Hwait] Hs.
+  red in Hnf.
+  step_cases l Hs.
+  all: flive_all.
+  all: (split; [|split]); red; intros; cbn [tasks ntasks free frames nframes tracker failed top_cancelled] in *.
+  all: try solve [ upd_cases; try (apply cf_dframe); upd_cases; try lia; try (apply Hwff; lia); try (specialize (Htf t); lia);
+                   cbn; try lia; match goal with |- context [t_frame (tasks _ ?x)] => specialize (Htf x); lia end ].
+Qed.
+
+Ltac pc_rewrite :=
+  repeat match goal with
+         | H : t_pc (tasks _ ?t) = _ |- _ => first [rewrite H in * | clear H]
+         end.
+
+Lemma ftd_spec s f : (forall t, ntasks s <= t -> tasks s t = dtask) -> frame_tasks_done s f = true ->
+  forall t, t_frame (tasks s t) = f -> is_fin (t_pc (tasks s t)) = true.
+Proof.
+  intros Hwf H t Ht. destruct (Nat.lt_ge_cases t (ntasks s)) as [Hlt|Hge].
+  - unfold frame_tasks_done in H. rewrite forallb_forall in H. specialize (H t).
+    rewrite Ht, Nat.eqb_refl in H. apply H. apply in_seq. lia.
+  - rewrite Hwf by auto. reflexivity.
+Qed.
+
+Ltac pre :=
+  try match goal with
+      | Hwf : (forall t, ntasks ?s <= t -> tasks ?s t = dtask), H : frame_tasks_done ?s ?f = true |- _ =>
+        pose proof (ftd_spec s f Hwf H)
+      end;
+  try match goal with
+      | Hw : I_wff ?s |- _ => assert (frames s (nframes s) = dframe) by (apply Hw; lia)
+      end;
+  repeat match goal with H : f_pc (frames _ _) = _ |- _ => rewrite H in * end.
+
+Ltac fpc_rw := repeat match goal with H : f_pc (frames _ _) = _ |- _ => rewrite H in * end.
+
+Ltac extra :=
+  try match goal with
+      | Hf : (forall t, t_frame (tasks ?s t) = _ -> is_fin _ = true), H0 : is_fin (t_pc (tasks ?s ?t)) = false |- _ =>
+        rewrite Hf in H0 by (auto; congruence); discriminate
+      end;
+  try match goal with H : frames ?s (nframes ?s) = dframe |- _ => rewrite H in * end;
+  repeat match goal with
+         | Ht : I_tframe ?s, H : t_pc (tasks ?s ?t) = _ |- _ =>
+           lazymatch goal with | _ : t_frame (tasks s t) < nframes s |- _ => fail | _ => idtac end;
+           pose proof (Ht t)
+         end.
+
+Ltac sat :=
+  repeat match goal with
+         | Hi : I_ingo ?s, H : t_pc (tasks ?s ?t) = TInGo ?f |- _ =>
+           lazymatch goal with | _ : f_parent (frames s f) = Some t |- _ => fail | _ => idtac end;
+           let A := fresh "Hig" in let B := fresh "Hig" in destruct (Hi t f H) as [A B]
+         | Hp : I_parent ?s, H : f_parent (frames ?s ?f) = Some ?p |- _ =>
+           lazymatch goal with | _ : t_frame (tasks s p) < f |- _ => fail | _ => idtac end;
+           let A := fresh "Hpa" in let B := fresh "Hpa" in let C := fresh "Hpa" in destruct (Hp f p H) as [[A C] B]
+         | Hu : I_unfin ?s, H : t_pc (tasks ?s ?t) = ?p |- _ =>
+           lazymatch goal with | _ : is_ret (f_pc (frames s (t_frame (tasks s t)))) = false |- _ => fail | _ => idtac end;
+           assert (is_ret (f_pc (frames s (t_frame (tasks s t)))) = false) by (apply Hu; rewrite H; reflexivity)
+         end.
+
+Lemma inv2_struct s l s' : Inv1 s -> Inv2 s -> step succ s l = Some s' ->
+  I_unfin s' /\ I_ingo s' /\ I_parent s' /\ I_top s'.
+Proof.
+  intros [Hwf Hperm Hmust Hmay] [Hwff Hnf Htf Hunf Hingo Hpar Htop Hself Hanc Hrank Hwait] Hs.
+  red in Hnf.
+  step_cases l Hs.
+  all: flive_all.
+  all: try (live t).
+  all: (split; [|split; [|split]]); red; intros; cbn [tasks ntasks free frames nframes tracker failed top_cancelled] in *.
+  all: fsimp.
+  all: pose proof Hunf as Hunf'; pose proof Htop as Htop'; red in Hunf', Htop'.
+  all: pre.
+  all: try (timeout 10 solve [ upd_cases; cbn in *; fsimp; sat; fpc_rw; extra; cbn in *;
+       try match goal with H : t_pc (tasks _ ?t) = TInGo ?f |- _ /\ _ => destruct (Hingo t f H) end;
+       try match goal with H : f_parent (frames _ ?f) = Some ?p |- _ /\ _ => destruct (Hpar f p H) end;
+       try match goal with H : f_parent (frames _ ?f) = None |- _ \/ _ => destruct (Htop f H) end;
+       unfold wait_pc in *; repeat match goal with H : context [match ?x with _ => _ end] |- _ => destruct x eqn:? end;
+       intuition (try congruence; try lia; eauto) ]).
 Qed.
 
 End Proofs.
